@@ -197,10 +197,23 @@ def gen_derive(rng, w, t):
     m, n, tc = M.m, M.n, M.tc
     names = w.sorted_names()
     kind = rng.choice(['add', 'sub', 'mul', 'div', 'neg', 'pos', 'abs', 'T', 'H', 'real', 'imag', 'get1', 'get2', 'get2', 'copy',
-                       'reshape', 'convert', 'emul', 'addnum', 'rsubnum', 'smul'])
+                       'reshape', 'convert', 'emul', 'addnum', 'rsubnum', 'smul', 'ediv', 'emax', 'emin', 'vstack', 'hstack', 'fromlist'])
     nm = w.fresh()
-    if kind in ('add', 'sub', 'emul'):
-        cands = [k for k in names if w.o(k)['M'].size == (m, n) or (kind != 'emul' and w.o(k)['M'].size == (1, 1))]
+    if kind == 'fromlist':
+        vt = rng.choice(['i', 'd', 'z'])
+        mm, nn = rng.randint(0, 3), rng.randint(0, 3)
+        cnt = mm * nn if rng.random() < 0.9 else mm * nn + 1
+        return ['derive', nm, 'fromlist', t, {'k': 'list', 'v': [mkval(vt, rng) for _ in range(cnt)]}, [mm, nn], rng.choice([None, None, 'i', 'd', 'z'])]
+    if kind in ('vstack', 'hstack'):
+        cands = [k for k in names if (w.o(k)['M'].n == n if kind == 'vstack' else w.o(k)['M'].m == m)]
+        other = rng.choice(cands) if cands and rng.random() < 0.9 else rng.choice(names)
+        return ['derive', nm, kind, t, other]
+    if kind in ('add', 'sub', 'emul', 'ediv', 'emax', 'emin'):
+        cands = [k for k in names if w.o(k)['M'].size == (m, n) or w.o(k)['M'].size == (1, 1)]
+        if kind == 'ediv':
+            cands = [k for k in cands if all(v != 0 for v in w.o(k)['M'].v) and all(abs(v) in (1, 2, 4, 0.5) for v in w.o(k)['M'].v)]
+            if not cands:
+                return ['derive', nm, 'pos', t]
         other = rng.choice(cands) if cands and rng.random() < 0.9 else rng.choice(names)
         return ['derive', nm, kind, t, other]
     if kind == 'mul':
@@ -435,7 +448,28 @@ def apply(op, w, stats):
         nm, dk, src = op[1], op[2], op[3]
         e = w.o(src)
         X, M = e['X'], e['M']
-        if dk in ('add', 'sub', 'mul', 'emul'):
+        if dk == 'fromlist':
+            vals = [lit(x) for x in op[4]['v']]
+            sh, tcx = tuple(op[5]), op[6]
+            if tcx is None:
+                fr, fm = (lambda: matrix(vals, sh)), (lambda: MDL.fromlist(vals, sh[0], sh[1], None))
+            else:
+                fr, fm = (lambda: matrix(vals, sh, tcx)), (lambda: MDL.fromlist(vals, sh[0], sh[1], tcx))
+        elif dk in ('ediv', 'emax', 'emin', 'vstack', 'hstack'):
+            import cvxopt
+            o = w.o(op[4])
+            Y, N = o['X'], o['M']
+            if dk == 'ediv':
+                fr, fm = (lambda: cvxopt.div(X, Y)), (lambda: MDL.ediv(M, N))
+            elif dk == 'emax':
+                fr, fm = (lambda: cvxopt.max(X, Y)), (lambda: MDL.eminmax(M, N, 'max'))
+            elif dk == 'emin':
+                fr, fm = (lambda: cvxopt.min(X, Y)), (lambda: MDL.eminmax(M, N, 'min'))
+            elif dk == 'vstack':
+                fr, fm = (lambda: matrix([X, Y])), (lambda: MDL.vstack(M, N))
+            else:
+                fr, fm = (lambda: matrix([[X], [Y]])), (lambda: MDL.hstack(M, N))
+        elif dk in ('add', 'sub', 'mul', 'emul'):
             o = w.o(op[4])
             Y, N = o['X'], o['M']
             if dk == 'add':
